@@ -82,6 +82,11 @@ def parse_tlc_log(text):
     info = {"generated": 0, "distinct": 0, "ok": False, "error": None}
     for mm in RE_STATES.finditer(text):
         info["generated"], info["distinct"] = int(mm.group(1)), int(mm.group(2))
+    sm = re.search(r"The number of states generated: (\d+)", text)
+    if sm and not info["generated"]:      # -simulate: random behaviours, states not deduplicated by TLC
+        info["generated"] = int(sm.group(1))
+        info["distinct"] = 0
+        info["simulated"] = True
     if "Model checking completed. No error has been found." in text or "Finished in" in text and "Error:" not in text:
         info["ok"] = True
     em = re.search(r"^Error: .*$", text, re.M)
